@@ -20,9 +20,10 @@ from ..engine import (
     AfterWrite,
     count_steps,
     install_copy_shim,
+    OpTimeout,
 )
 from ..ops import exec_read_op
-from ..terms import World, KINDS
+from ..terms import World, KINDS, BuildError
 
 PID = "C08"
 
@@ -256,7 +257,12 @@ def run(case):
                 fresh = World(term)
                 for kind, idx in sorted(touches(term, op)):
                     fresh.get(kind, idx)  # built before tracing starts
-                out, n = count_steps(lambda: exec_read_op(fresh, op), gran)
+                try:
+                    out, n = count_steps(lambda: exec_read_op(fresh, op), gran, cap=300_000)
+                except OpTimeout:
+                    # a single operation on fresh objects does not terminate: not a
+                    # history / schedule question; the world is discarded (counted)
+                    raise BuildError(f"op {op!r}", RuntimeError("does not terminate on fresh objects"))
                 ref[op] = (out, n)
             solo[(c, k)] = ref[op][1]
             K += ref[op][1]
@@ -304,6 +310,7 @@ def run(case):
         granularity=sk["granularity"],
         faults=faults,
         digest_every=digest_every,
+        max_steps=60 * K + 50_000,
     )
     eng.run()
 
